@@ -190,10 +190,13 @@ class StringifyMapper(Mapper):
                 enclosing_prec, PREC_CALL)
 
     def map_lookup(self, expr, enclosing_prec, *args, **kwargs):
+        aggregate = self.rec(expr.aggregate, PREC_CALL, *args, **kwargs)
+        if aggregate.isdigit():
+            # '1.real' reads as a float literal followed by a name
+            aggregate = self.parenthesize(aggregate)
+
         return self.parenthesize_if_needed(
-                self.format("%s.%s",
-                    self.rec(expr.aggregate, PREC_CALL, *args, **kwargs),
-                    expr.name),
+                self.format("%s.%s", aggregate, expr.name),
                 enclosing_prec, PREC_CALL)
 
     def map_sum(self, expr, enclosing_prec, *args, **kwargs):
